@@ -56,18 +56,19 @@ fn run(prop: &str, tier: &str) -> i32 {
     let results: Vec<Result<(RunStats, Info), String>> = jobs.par_iter().map(|(l, n)| sweep(l, *n, &known)).collect();
     let mut runs = vec![];
     let mut infos = vec![];
+    // a store that cannot be built through the real entry points (they all can on the unchanged tree)
+    let mut unbuilt: Vec<String> = vec![];
     for r in results {
         match r {
             Ok((st, info)) => {
                 runs.push(st);
                 infos.push(info);
             }
-            Err(e) => {
-                eprintln!("machinery error: {e}");
-                return 2;
-            }
+            Err(e) => unbuilt.push(e),
         }
     }
+    unbuilt.sort();
+    rep.extra.insert("stores_that_could_not_be_built".into(), json!(unbuilt));
     // stable order in the evidence: by listing (declaration order), then n
     let order: BTreeMap<&str, usize> = ls.iter().enumerate().map(|(i, l)| (l.name, i)).collect();
     let mut idx: Vec<usize> = (0..runs.len()).collect();
@@ -109,6 +110,7 @@ fn run(prop: &str, tier: &str) -> i32 {
             "entry_point_calls_to_build_stores": mine.iter().map(|i| i.build_calls).sum::<u64>(),
             "longest_walk_pages": mine.iter().map(|i| i.longest_walk_pages).max().unwrap_or(0),
             "short_non_final_pages": short,
+            "sizes_judged_under_alternative_reading": mine.iter().filter(|i| i.alt_reading).map(|i| i.n).collect::<Vec<_>>(),
         }));
     }
     rep.extra.insert("listings".into(), json!(per_listing));
@@ -122,7 +124,7 @@ fn run(prop: &str, tier: &str) -> i32 {
             "note": "pages shorter than min(limit or 10, 30) although more current items follow. For unfiltered listings such a page is a violation; for the filtered listing (cw1-subkeys AllAllowances, which drops expired entries) a short non-empty page would only be reported here, an empty one is a violation (the walk would end early). The real code filters before `take(limit)`, so none occur.",
         }),
     );
-    rep.alphabet = "pager states (listing, store of n items, limit, cursor): 21 listing variants (cw20-base AllAccounts / AllAllowances / AllSpenderAllowances; cw1-subkeys AllAllowances with six expiry patterns × query blocks, AllPermissions; cw3-fixed and cw3-flex ListProposals / ReverseProposals / ListVotes / ListVoters; cw4-group and cw4-stake ListMembers; cw20-ics20 ListAllowed); limits {absent, 0, 1, 2, 9, 10, 11, 29, 30, 31, 32, 100, 2^32-1}; cursors: none, every stored key as start_after / start_before (for the filtered listing also the keys of expired entries), and the walk from the beginning with the last returned key as next cursor until an empty page".into();
+    rep.alphabet = "pager states (listing, store of n items, limit, cursor): 22 listing variants (cw20-base AllAccounts (all funded; and with runs of emptied accounts at the start, middle and end of the key order) / AllAllowances / AllSpenderAllowances; cw1-subkeys AllAllowances with six expiry patterns × query blocks, AllPermissions; cw3-fixed and cw3-flex ListProposals / ReverseProposals / ListVotes / ListVoters; cw4-group and cw4-stake ListMembers; cw20-ics20 ListAllowed); limits {absent, 0, 1, 2, 9, 10, 11, 29, 30, 31, 32, 100, 2^32-1}; cursors: none, every stored key as start_after / start_before (for the filtered listing also the keys of expired entries), and the walk from the beginning with the last returned key as next cursor until an empty page".into();
     rep.oracle = "expected listing = the constructed key set sorted by key bytes (numerically for proposal ids, descending for ReverseProposals), each key confirmed by the contract's point query (Balance, Allowance, Permissions, Proposal, Vote, Voter, Member, Allowed); every page must be the run of the next min(limit or 10, 30) expected entries after the cursor (fewer only at the end), each entry equal to the point query's answer; no page exceeds the requested limit, 30, or 10 without a limit; the page without a limit equals the page with limit 10; limit 0 gives an empty page; for every limit >= 1 the walk until an empty page returns every current item exactly once in order and terminates".into();
     rep.bounds = format!(
         "complete enumeration of sizes {:?} × 13 limits × (n+1) cursors + 13 walks per (listing, size){}; stores contain noise entries in neighbouring prefixes/namespaces",
@@ -134,10 +136,20 @@ fn run(prop: &str, tier: &str) -> i32 {
         "store sizes are bounded by 64 (quick) / 121 (thorough); limits above 2^32-1 cannot be expressed (u32)".into(),
         "cursors are keys of the store (what a previous page can return); arbitrary strings as cursors are not explored".into(),
         "cw3-flex ListVoters / Voter are answered by a real cw4-group through the kernel's smart and raw queries".into(),
+        "cw20-base AllAccounts over emptied accounts (balance transferred away, entry of 0 remains): the property does not say whether such an account is still an item; the unchanged code lists them, and the check accepts either reading (all stored accounts, or funded accounts only) provided the listing follows it completely for every limit and cursor".into(),
         "cw3-fixed ListVoters with 0 voters is not constructible (instantiate refuses); cw20-ics20 ListChannels has no paging and is not covered".into(),
     ];
     rep.runs = runs;
-    rep.finish()
+    let code = rep.finish();
+    if !unbuilt.is_empty() {
+        for e in &unbuilt {
+            eprintln!("machinery error: cannot build the store (instantiate/execute of the contracts under test failed, so this configuration has no verdict): {e}");
+        }
+        if code == 0 {
+            return 2;
+        }
+    }
+    code
 }
 
 fn parse_case(v: &Value) -> Result<(Listing, usize, String, Option<u32>, Option<Key>), String> {
@@ -159,7 +171,14 @@ fn parse_case(v: &Value) -> Result<(Listing, usize, String, Option<u32>, Option<
 /// re-run one recorded case on a freshly built store; returns (printed lines, violated clauses)
 fn replay_once(case: &Value) -> Result<(Vec<String>, Vec<(String, String)>), String> {
     let (l, n, mode, limit, cursor) = parse_case(case)?;
-    let b = l.build(n)?;
+    let mut b = l.build(n)?;
+    if case["alt_reading"] == json!(true) {
+        let alt = b.alternative().ok_or("case refers to an alternative reading the store does not have")?;
+        // judged under the reading the listing follows now (as the sweep does)
+        if !pager::follows_first_reading(&l, &b, &alt) {
+            b = alt;
+        }
+    }
     let mut lines = vec![format!(
         "store: {} with {} stored entries, {} current items (built with {} entry-point calls, {} point queries)",
         l.name,
